@@ -536,6 +536,10 @@ def analyze(ctx, want):
         kind = dict((dv, n) for n, dv in kd[0][0][2]).get(kd[0][1]) if kd else None
         streq = [(c, o) for c, o in p.conds if (c[0] == "app" and re.search(r"PartialEq.*>::eq$|str>::eq$", c[1])) or (c[0] == "binop" and c[1] == "Eq" and "const" in (c[2][0], c[3][0]))]
         taken = [c for c, o in streq if o is True]
+        # `match ch { 'L' => .. }` is a switch on the char value
+        chsw = [(c, o) for c, o in p.conds if c[0] != "discr" and c[0] != "app" and isinstance(o, int) and not isinstance(o, bool) and kind == "OneLetter"]
+        for c, o in chsw:
+            taken.append(("binop", "Eq", c, ("const", chr(o))))
         negc = [(c, o) for c, o in p.conds if c[0] == "app" and re.search(r"ClassUnicode::is_negated$", c[1])]
         neg = negc[-1][1] if negc else None
         if r[0] == "adt" and r[2] == "Err":
